@@ -599,6 +599,31 @@ pub fn decode_inputs(tier: Tier) -> Vec<ByteFamily> {
             }),
         });
     }
+    // (8c2) junk in front of storage headers whose 12 content bytes are themselves unusual
+    {
+        let msg = enc(&msg_with(0x04, 1, Some(ext(MSTP_LOG, 4, "APP", "CTX")), payload_for(true, Some(MSTP_LOG), 0), None));
+        let junks: Vec<Vec<u8>> = vec![vec![], b"X".to_vec(), b"DLT".to_vec(), vec![0u8; 7]];
+        let times: Vec<[u8; 8]> = vec![[0; 8], [0xFF; 8], *b"DLT\x01DLT\x01", [1, 2, 3, 4, 0x40, 0x42, 0x0F, 0], [9, 9, 9, 9, 0x3F, 0x42, 0x0F, 0], [0, 0, 0, 0x80, 0, 0, 0, 0x80]];
+        let ecus: Vec<[u8; 4]> = vec![*b"ECU1", *b"ECU\0", [0, 0, 0, 0], *b"GW01", [0xC3, 0xA9, b'1', 0], [0xFF, 0xFE, 0, 0], *b"DLT\x01", *b"    "];
+        let sp = Space::new(&[junks.len(), times.len(), ecus.len()]);
+        let s2 = sp.clone();
+        fams.push(ByteFamily {
+            name: "resync.header_content".into(),
+            about: "4 junk strings x 6 storage-header timestamps (zeros, FF.., the pattern twice, microseconds = 999999 / 1000000, high bits) x 8 storage ECU ids (equal / different from the header's, blank, non-ASCII, invalid UTF-8, the pattern, spaces) in front of one message, followed by a second stored message".into(),
+            size: sp.size(),
+            gen: Box::new(move |i| {
+                let c = s2.coords(i);
+                let mut b = junks[c[0]].clone();
+                for _ in 0..2 {
+                    b.extend_from_slice(b"DLT\x01");
+                    b.extend_from_slice(&times[c[1]]);
+                    b.extend_from_slice(&ecus[c[2]]);
+                    b.extend_from_slice(&msg);
+                }
+                b
+            }),
+        });
+    }
     // (8d) every truncation of dialect inputs (non-canonical but accepted encodings must be
     // 'incomplete' at every cut as well)
     {
